@@ -1,14 +1,128 @@
-//! (rules to be transcribed)
+//! MT107 — documented rules (doc comments and rule texts of validate_* in /repo/src/messages/mt107.rs,
+//! SR2025 MT107 C1..C9, and the field 23E code rules T47/D81)
+use super::mt104::{ccys, same_amount, split_top};
 use super::*;
 
-pub fn expected(_v: &RView) -> Expect {
+/// the library documents one list for both sequences
+const VALID_23E_DOC: &[&str] = &["AUTH", "NAUT", "OTHR", "RTND"];
+
+pub fn expected(v: &RView) -> Expect {
     let mut e = Expect::default();
-    // until transcribed: every code is undetermined (no verdict)
-    e.undet("*");
+    let (a, c) = split_top(v);
+    let bs = v.seqs();
+    let any_b = |pat: &str| bs.iter().any(|b| has(b, pat));
+    let all_b = |pat: &str| !bs.is_empty() && bs.iter().all(|b| has(b, pat));
+
+    // C1 (D86): 23E, and independently 50a A/K, either in A or in every B, not both (and not neither)
+    for pat in ["23E", "50[AK]"] {
+        let in_a = has(&a, pat);
+        e.must_if((in_a && any_b(pat)) || (!in_a && !all_b(pat)), "D86");
+    }
+    // C2 (D73): 21E, 26T, 77B, 71A, 52a, 50a C/L: in A or in B occurrences, not both
+    for pat in ["21E", "26T", "77B", "71A", "52*", "50[CL]"] {
+        e.must_if(has(&a, pat) && any_b(pat), "D73");
+    }
+    // C3 (D77): 21E => 50a A/K in the same sequence (occurrence)
+    e.must_if(has(&a, "21E") && !has(&a, "50[AK]"), "D77");
+    for b in bs.iter() {
+        e.must_if(has(b, "21E") && !has(b, "50[AK]"), "D77");
+    }
+    // C4 (C82): 72 present iff 23E of A is RTND
+    let rtnd = get(&a, "23E").map(code_of).as_deref() == Some("RTND");
+    e.must_if(rtnd != has(&a, "72"), "C82");
+    // C5 (D79): 71F in some B <=> 71F in C; same for 71G
+    for t in ["71F", "71G"] {
+        e.must_if(any_b(t) != has(&c, t), "D79");
+    }
+    for b in bs.iter() {
+        if let (Some(x33), Some(x32)) = (get(b, "33B"), get(b, "32B")) {
+            // C6 (D21)
+            e.must_if(ccy_of(x33) == ccy_of(x32) && same_amount(x33, x32), "D21");
+            // C7 (D75)
+            if ccy_of(x33) != ccy_of(x32) {
+                e.must_if(!has(b, "36"), "D75");
+            } else {
+                e.must_if(has(b, "36"), "D75");
+            }
+        } else {
+            e.must_if(has(b, "36"), "D75");
+        }
+    }
+    // C8 (D80, C01): "the sum of the amounts of fields 32B in sequence B must be put either in field 32B of
+    // sequence C when no charges are included, or in field 19 of sequence C. In the former case field 19 must
+    // not be present (D80); in the latter case field 19 must equal the sum (C01)."
+    // Two readings are defensible:
+    //  H (handbook, as MT104 C9/C10 spell it out, decided by the amounts): 32B of C equals the sum => 19 not
+    //    allowed (D80); differs => 19 mandatory (D80); 19 present => equals the sum (C01)
+    //  L (the library's rule texts, decided by the presence of 71F/71G in sequence B): charges => 19 mandatory
+    //    (D80) and equal to the sum (C01); no charges => 32B of C equals the sum (D80) and 19 not allowed (D80)
+    // A code is demanded when both readings demand it and not judged when only one does.
+    let b_amounts: Vec<DecStr> = bs.iter().filter_map(|b| get(b, "32B").and_then(amount_of)).collect();
+    let total = sum(&b_amounts);
+    let settle_eq = get(&c, "32B").and_then(amount_of).map(|x| scaled(&x) == total);
+    let f19_eq = get(&c, "19").and_then(amount_of).map(|x| scaled(&x) == total);
+    if let Some(eq) = settle_eq {
+        let has19 = has(&c, "19");
+        let charges = any_b("71F") || any_b("71G");
+        let h_d80 = eq == has19;
+        let h_c01 = f19_eq == Some(false);
+        let (l_d80, l_c01) = if charges { (!has19, f19_eq == Some(false)) } else { (!eq || has19, false) };
+        for (code, h, l) in [("D80", h_d80, l_d80), ("C01", h_c01, l_c01)] {
+            if h && l {
+                e.must(code);
+            } else if h || l {
+                e.undet(code);
+            }
+        }
+    }
+    // C9 (C02): one currency over all 32B and 71G of sequences B and C; one currency over all 71F
+    let mut g1: Fs = Vec::new();
+    let mut g2: Fs = Vec::new();
+    for s in bs.iter().chain(std::iter::once(&c)) {
+        g1.extend(all(s, "32B"));
+        g1.extend(all(s, "71G"));
+        g2.extend(all(s, "71F"));
+    }
+    e.must_if(ccys(&g1).len() > 1 || ccys(&g2).len() > 1, "C02");
+    // field 23E: T47 code list, D81 narrative only with OTHR
+    let mut f23: Vec<(&GenField, bool)> = all(&a, "23E").into_iter().map(|x| (x, true)).collect();
+    for b in bs.iter() {
+        f23.extend(all(b, "23E").into_iter().map(|x| (x, false)));
+    }
+    for (x, in_a) in f23 {
+        let code = code_of(x);
+        if !in_a && code == "RTND" {
+            // the handbook lists AUTH, NAUT, OTHR for sequence B; the library documents one list incl. RTND
+            e.undet("T47");
+        } else {
+            e.must_if(!VALID_23E_DOC.contains(&code.as_str()), "T47");
+        }
+        e.must_if(has_info(x) && code != "OTHR", "D81");
+    }
     e
 }
 
 pub fn content_hook(tag: &str, src: &mut crate::choice::Src) -> Option<String> {
-    let _ = (tag, src);
-    None
+    match tag {
+        "32B" | "33B" => {
+            if src.chance(1, 12) {
+                // a three-decimal currency: amounts that differ by less than one hundredth
+                return Some(format!("KWD{}", src.pick(&["100,", "100,001", "100,005", "100,"])));
+            }
+            let c = *src.pick(&["USD", "USD", "USD", "USD", "USD", "EUR"]);
+            let a = *src.pick(&["100,", "100,", "100,", "200,", "300,", "200,01", "199,99", "50,", "100,00"]);
+            Some(format!("{c}{a}"))
+        }
+        "19" => Some(src.pick(&["100,", "200,", "300,", "200,01", "199,99", "400,", "299,99", "150,"]).to_string()),
+        "71F" | "71G" => {
+            let c = *src.pick(&["USD", "USD", "USD", "EUR"]);
+            let a = *src.pick(&["1,", "2,50", "10,"]);
+            Some(format!("{c}{a}"))
+        }
+        "23E" => {
+            let c = *src.pick(&["AUTH", "NAUT", "OTHR", "RTND", "RTND", "RFDD", "ZZZZ"]);
+            if src.chance(1, 4) { Some(format!("{c}/INFO")) } else { Some(c.to_string()) }
+        }
+        _ => None,
+    }
 }
